@@ -1,3 +1,5 @@
+import TantivyModel.Proofs.SSTable.Bounds
+import TantivyModel.Proofs.SSTable.WriterBlocks
 import TantivyModel.Proofs.SSTable.StateStack
 import TantivyModel.Proofs.SSTable.Framing
 import TantivyModel.Proofs.SSTable.LocateOrd
@@ -607,6 +609,105 @@ theorem C15_search_delta {σ V} (d : Dict V) (A : Automaton σ) (lo hi : Bound) 
 example : scanSearchDelta (prefixAutomaton [1]) .unbounded .unbounded false 0 [] [(prefixAutomaton [1]).start]
       (fileTriples [[(([0, 5] : Key), 1), ([1], 2)], [([1, 7], 3), ([2], 4)]])
     = [(1, [1], 2), (2, [1, 7], 3)] := by decide
+
+/-! ## writer state and block layout; per-round merge tables; corollaries -/
+
+/-- one writer: the state machine that performs the order checks (`previous_key`, block bytes,
+block start, last key of the last closed block) closes its blocks exactly where the block layout
+used by `build` / `C15_delta_roundtrip` does -/
+theorem C15_writer_blocks (blockLen : Nat) (ks : List Key) :
+    writerBlocks blockLen {} [] ks = blocksOf id blockLen ks :=
+  writerBlocks_eq blockLen {} [] ks
+
+/-- the per-round tables of the heap merge (columnar `TermMerger::advance` + `matching_segments`):
+round `j` reports, for every input, the old ordinal of the `j`-th merged key in that input, `none`
+if the input does not hold it — i.e. the transposed `C15_term_ordinal_remap` tables -/
+theorem C15_merge_round_tables {V} (comb : List V → V) (ms : List (Assoc V))
+    (hs : ∀ m ∈ ms, SortedMap m) :
+    kmergeOrds (totalLen ms) (ms.map (fun _ => 0)) ms
+      = (keys (mergeSpec comb ms)).map (fun k => ms.map (fun m => termOrd m k)) := by
+  rw [kmergeOrds_eq comb (totalLen ms) (ms.map (fun _ => 0)) ms hs (Nat.le_refl _) (by simp)]
+  apply List.map_congr_left
+  intro k _
+  unfold roundRow
+  rw [List.zip_map_left, List.map_map]
+  have : ∀ l : List (Assoc V), (l.zip l).map ((fun p : Nat × Assoc V => (termOrd p.2 k).map (· + p.1)) ∘
+      Prod.map (fun _ => 0) id) = l.map (fun m => termOrd m k) := by
+    intro l
+    induction l with
+    | nil => rfl
+    | cons a r ih =>
+      simp only [List.zip_cons_cons, List.map_cons, Function.comp, Prod.map, id, Nat.add_zero]
+      congr 1
+      · cases termOrd a k <;> simp
+  exact this ms
+
+/-- a prefix stream of the dictionary is a (limited) prefix of the keys starting with `p` -/
+theorem C15_ops_refine_prefix {V} (blockLen : Nat) (m : Assoc V) (hs : SortedMap m) (p : Key)
+    (limit : Option Nat) (out : List (Nat × Key × V))
+    (h : (build blockLen m).stream (prefixBounds p).1 (prefixBounds p).2 limit = some out) :
+    out.map (fun e => (e.2.1, e.2.2)) <+: prefixed m p ∧
+    (match limit with
+     | none => out.map (fun e => (e.2.1, e.2.2)) = prefixed m p
+     | some l => min l (prefixed m p).length ≤ out.length) := by
+  have := C15_ops_refine_range blockLen m hs (prefixBounds p).1 (prefixBounds p).2 limit
+  rw [h] at this
+  obtain ⟨_, hlim⟩ := this
+  unfold IsLimitedRange at hlim
+  rw [C15_prefix_stream] at hlim
+  refine ⟨hlim.1, ?_⟩
+  cases limit with
+  | none => exact hlim.2
+  | some l => simpa using hlim.2
+
+/-- range streams through the front-coded entries (`AlwaysMatch` never looks at its state) -/
+theorem C15_range_stream_delta {V} (lo hi : Bound) (bs : List (Assoc V)) (ord : Nat) :
+    scanSearchDelta allAut lo hi false ord [] [allAut.start] (fileTriples bs)
+      = scanStream lo hi false ord bs.flatten := by
+  rw [C15_streamer_state_stack, ← scanStream_eq_scanSearch allAut allAut_accepts]
+
+/-- columnar `DictionaryBuilder::serialize`: terms get unordered ids in first-seen order, the
+dictionary stores them sorted, and `TermIdMapping` sends an unordered id to the rank of its term:
+the term at that rank is the original term, and distinct terms get distinct ranks -/
+theorem C15_columnar_term_id_mapping (terms : List Key) (uid : Nat) (t : Key)
+    (h : terms[uid]? = some t) :
+    (unionKeys [terms])[ordOf (unionKeys [terms]) t]? = some t ∧
+    (∀ (uid' : Nat) (t' : Key), terms[uid']? = some t' → t' ≠ t →
+      ordOf (unionKeys [terms]) t' ≠ ordOf (unionKeys [terms]) t) := by
+  have hsorted := unionKeys_sorted [terms]
+  have hmem : ∀ x, x ∈ terms → x ∈ unionKeys [terms] := fun x hx =>
+    (mem_unionKeys [terms] x).mpr ⟨terms, by simp, hx⟩
+  have ht := hmem t (List.mem_of_getElem? h)
+  refine ⟨(findIdx_ordOf _ t hsorted ht).2, ?_⟩
+  intro uid' t' h' hne heq
+  have ht' := hmem t' (List.mem_of_getElem? h')
+  have h1 := (findIdx_ordOf _ t hsorted ht).2
+  have h2 := (findIdx_ordOf _ t' hsorted ht').2
+  rw [heq, h1] at h2
+  exact hne (Option.some.inj h2).symm
+
+example : writerBlocks 2 {} [] [[1], [1, 2], [1, 2, 3], [2]] = [[[1], [1, 2]], [[1, 2, 3]], [[2]]] := by decide
+example : kmergeOrds 4 [0, 0] [[(([1] : Key), 1), ([3], 3)], [([2], 20), ([3], 30)]]
+    = [[some 0, none], [none, some 0], [some 1, some 1]] := by decide
+example : ([([5] : Key), [1], [3]])[0]? = some [5] ∧ ordOf (unionKeys [[[5], [1], [3]]]) [5] = 2 := by decide
+
+/-! ## key bounds to ordinal bounds -/
+
+/-- `Dictionary::term_bounds_to_ord` (an exact hit keeps the bound kind, a miss becomes
+`Included(next)` below / `Excluded(next)` above, `Next(u64::MAX)` past the last separator): on the
+dictionary built from any sorted map (fewer than `u64::MAX` terms), for every bound kind, the
+ordinal bounds select exactly the ordinals whose keys satisfy the key bounds -/
+theorem C15_term_bounds_to_ord {V} (blockLen : Nat) (m : Assoc V) (hs : SortedMap m)
+    (hn : m.length < U64_MAX) (lo hi : Bound) (i : Nat) (e : Key × V) (h : m[i]? = some e) :
+    (((build blockLen m).termBoundsToOrd lo hi).1.lo i && ((build blockLen m).termBoundsToOrd lo hi).2.hi i)
+      = (matchLo lo e.1 && matchHi hi e.1) := by
+  obtain ⟨h1, h2⟩ := termBoundsToOrd_spec blockLen m hs hn lo hi i e h
+  rw [h1, h2]
+
+example : (build 2 [(([1] : Key), 10), ([1, 2], 20), ([1, 2, 3], 30), ([2], 40)]).termBoundsToOrd
+      (.excl [1]) (.incl [1, 9]) = (.excl 0, .excl 3) ∧
+    (build 2 [(([1] : Key), 10), ([1, 2], 20), ([1, 2, 3], 30), ([2], 40)]).termBoundsToOrd
+      (.incl [9]) .unbounded = (.incl U64_MAX, .unbounded) := by decide
 
 /-! ## insertion order (DESIGN §8, F6) -/
 
